@@ -214,13 +214,13 @@ RunOps(s, i, th) ==
 DrvOps(s, i) == IF s[i].sw # LT THEN <<>>
                 ELSE <<Op("sched", i, 0)>> \o (IF s[i].dw = LT THEN <<Op("post", i, s[i].w)>> ELSE <<>>)
 
-\* ("up": F goes on only once the loop runs - a dispose() that races the START of the loop is outside the statement)
+\* ("up" w: F goes on only once the loop has been started for the w-th time - a dispose() that races the START of the loop is outside the statement)
 StpOps(s, i) == IF s[i].dw = "stp" THEN <<Op("sleep", i, s[i].w), Op("disp", i, 0)>> ELSE <<>>
 \* ("down": F waits until the loop has stopped; it disposes the "stp" items and runs the loop again)
 Script(s, th) == IF th = FT
-                 THEN CatUpTo([i \in Items |-> PreOps(s, i)], N) \o <<Op("go", 0, 0), Op("up", 0, 0)>> \o CatUpTo([i \in Items |-> RunOps(s, i, th)], N)
+                 THEN CatUpTo([i \in Items |-> PreOps(s, i)], N) \o <<Op("go", 0, 0), Op("up", 0, 1)>> \o CatUpTo([i \in Items |-> RunOps(s, i, th)], N)
                       \o (IF PauseOf(s) > 0
-                          THEN <<Op("down", 0, 0)>> \o CatUpTo([i \in Items |-> StpOps(s, i)], N) \o <<Op("go", 0, 0), Op("up", 0, 0)>>
+                          THEN <<Op("down", 0, 0)>> \o CatUpTo([i \in Items |-> StpOps(s, i)], N) \o <<Op("go", 0, 0), Op("up", 0, 2)>>
                           ELSE <<>>)
                  ELSE CatUpTo([i \in Items |-> RunOps(s, i, th)], N)
 \* the driver callback: optionally a long sleep first (the loop thread is BUSY: handles queue up behind it)
@@ -265,7 +265,7 @@ NextOp(th) ==
        /\ CASE o.op = "go"    -> go' = TRUE /\ UNCHANGED <<ex, fwake>>
             [] o.op = "sleep" -> fwake' = [fwake EXCEPT ![th] = now + o.w] /\ UNCHANGED <<ex, go>>
             [] o.op = "await" -> it[o.i].ss = "ret" /\ UNCHANGED <<ex, fwake, go>>       \* blocks until the item was scheduled
-            [] o.op = "up"    -> loopTh # NoTh /\ UNCHANGED <<ex, fwake, go>>            \* blocks until the loop runs
+            [] o.op = "up"    -> gen >= 2 * o.w - 1 /\ UNCHANGED <<ex, fwake, go>>       \* blocks until the loop has been started w times
             [] o.op = "down"  -> lp.pc = "off" /\ gen >= 2 /\ UNCHANGED <<ex, fwake, go>>  \* blocks until the loop has run and stopped
             [] OTHER          -> SetEx(th, [op |-> o.op, i |-> o.i, step |-> 0, tmp |-> o.w]) /\ UNCHANGED <<fwake, go>>
     /\ UNCHANGED <<mon, variant, scn, hs, ready, timers, hl, fut, lp, idled, woken, own, busy, pause>>
